@@ -20,7 +20,7 @@ from xv.harness import shash
 ID = "C28"
 LEVEL = "exploration"
 RULE = ("a case is (module of 1-3 pure single-block arith functions (later ones fresh or an identical copy of the first, so constants and sub-expressions occur in several functions) over one integer type i8/i16/i32/i64/index: 2-14 ops from "
-        "addi/muli/subi/shli/andi/ori/xori and constants 0/1/2/3/-1 with shared sub-terms, dead ops and 1-3 returns; a set "
+        "addi/muli/subi/shli/andi/ori/xori and constants 0/1/2/3/4/-1/-2/-4 and 64-bit values with colliding python hashes (2**63-1, -2**63, 2**61-1) with shared sub-terms, dead ops and 1-3 returns; a set "
         "of 0-5 rewrite rules drawn from the refsem-validated candidates (identities with constants 0/1/2, commutativity, "
         "associativity, distributivity / factoring, x*2 -> x<<1, x+x -> x*2, x-x -> 0 ...) rendered as PDL with constant or "
         "free result types and re-used or re-created constants; max_iterations 1-20; uniform or random per-op cost table), "
@@ -34,7 +34,7 @@ LEVEL_NOTE = ("trusts xv.refsem (reference semantics, also used to validate ever
               "the xDSL parser / verifier, CPython")
 TECHNIQUE = "reference-model differential monitor (refsem results before/after the real eqsat pipeline) with refsem-validated rule sets and an executable model of the known wrong behaviour as classifier"
 ENGINES = ["harness", "refsem", "canon"]
-ASSUMPTIONS = ["a rule that holds for all i4 inputs (both sides defined and equal) is sound for every integer width used (constants 0/1/2 only, no width-dependent constants)",
+ASSUMPTIONS = ["a rule that holds for all i4 inputs (both sides defined and equal) is sound for every integer width used (rule constants are in -4..4, no width-dependent constants)",
                "inputs on which the source function is undefined (shift amount >= width) are excluded on the source side only",
                "rule sets that contain an expanding rule (distributivity, factoring, associativity, x+x -> x*2) run with max_iterations <= 6; a saturation that still needs more than 5 CPU-s is excluded and counted (budget, not verdict)",
                "cost tables are positive integers; eqsat-add-costs is always given a default so that every e-class gets a min_cost_index"]
@@ -188,6 +188,10 @@ def work(job):
                 rng = random.Random(f"c28:{job['seed']}:{job['shard']}:{i}")
                 k = rng.choice([0, 0, 1, 2, 3, 3, 4, 5])
                 chosen = rng.sample(sound, k)
+                if k and rng.random() < 0.4:
+                    # at least one rule that materialises a constant with a hash-colliding partner
+                    mat = [r for r in sound if r[0] in L.MATERIALISING and r not in chosen[1:]]
+                    chosen[0] = rng.choice(mat)
                 rules = [r[0] for r in chosen]
                 ty = rng.choice(L.PROG_TYPES + ["index"])
                 nfuncs = rng.choice([1, 1, 2, 2, 3])
